@@ -2,6 +2,7 @@ import Ubx.Model.Message
 import Ubx.Model.Sources
 import Ubx.Model.Helpers
 import Ubx.Generated.Tables
+import Ubx.Proofs.CodeParse
 /-!
 # Line-protocol driver: one operation per input line, one answer per output line.
 The Python harness (tools/harness) sends the same operations to the real pyubx2 and diffs.
@@ -210,8 +211,57 @@ def parseCfgKey (s : String) : CfgKey :=
   | '#' :: r => .byId ((String.ofList r).toNat!)
   | _ => .byName (encName s)
 
+/-! ### `pyl-…` operations: the same questions answered by *interpreting the code of the working tree*
+(`Gen.Code.fn_*` under the PyLite semantics) instead of by the hand model — compared with CPython by the harness, so
+the PyLite semantics and the translator are themselves checked against Python on every run. -/
+
+def pylFuel : Nat := 100000
+
+def excStr {ω : Type} : Py.V ω → String
+  | .exc c _ => if c = Py.xFuel then "diverges" else if c = Py.xUnsupported then "unsupported" else "err " ++ nameStr c
+  | _ => "err ?"
+
+def pylHelper : Py.Host Empty Unit := Py.helperHost (Py.globLookup Gen.Code.globals)
+
+def handlePyl (toks : List String) : String :=
+  match toks with
+  | ["pyl-cksum", h] =>
+    (match unhex h with
+     | some b => (match (Py.runFn pylHelper pylFuel Gen.Code.fn_calc_checksum [.bytes b] ()).1 with
+        | .ok (.bytes r) => hexOf r | .ok _ => "bad-value" | .error e => excStr e)
+     | none => "bad-op")
+  | ["pyl-isvalid", h] =>
+    (match unhex h with
+     | some b => (match (Py.runFn pylHelper pylFuel Gen.Code.fn_isvalid_checksum [.bytes b] ()).1 with
+        | .ok (.bool r) => toString r | .ok _ => "bad-value" | .error e => excStr e)
+     | none => "bad-op")
+  | ["pyl-inputmode", h] =>
+    (match unhex h with
+     | some b => (match (Py.runFn pylHelper pylFuel Gen.Code.fn_getinputmode [.bytes b] ()).1 with
+        | .ok (.int r) => toString r | .ok _ => "bad-value" | .error e => excStr e)
+     | none => "bad-op")
+  | ["pyl-protocol", h] =>
+    (match unhex h with
+     | some b => (match (Py.runFn pylHelper pylFuel Gen.Code.fn_protocol [.bytes b] ()).1 with
+        | .ok (.int r) => s!"ok {r}" | .ok _ => "bad-value" | .error e => excStr e)
+     | none => "bad-op")
+  | ["pyl-getbits", h, m] =>
+    (match unhex h with
+     | some b => (match (Py.runFn pylHelper pylFuel Gen.Code.fn_get_bits [.bytes b, .int (toNatD m)] ()).1 with
+        | .ok (.int r) => s!"ok {r}" | .ok _ => "bad-value" | .error e => excStr e)
+     | none => "bad-op")
+  | ["pyl-parse", mode, val, bf, h] =>
+    (match unhex h with
+     | some b =>
+       (match (Py.runFn (Py.parseHost Gen.ctx) pylFuel Gen.Code.fn_UBXReader_parse
+                [.bytes b, .int (toNatD mode), .int (toNatD val), .bool (bf = "1")] ()).1 with
+        | .ok (.host m) => resDump (.ok m) | .ok _ => "bad-value" | .error e => excStr e)
+     | none => "bad-op")
+  | _ => "bad-op"
+
 def handle (line : String) : String :=
   let toks := (line.splitOn " ").filter (· ≠ "")
+  if (toks.head?.getD "").startsWith "pyl-" then handlePyl toks else
   match toks with
   | ["cksum", h] => (match unhex h with | some b => hexOf (calcChecksum b) | none => "bad-op")
   | ["isvalid", h] => (match unhex h with | some b => toString (isValidChecksum b) | none => "bad-op")
